@@ -1,10 +1,12 @@
-\* C20 schedule generator (Isolate): every pause-point schedule of the six job families
+\* C20 schedule generator (Isolate): every pause-point schedule of the job families
 CONSTANTS
   Threads = {1, 2, 3}
   CompilerScope = "per execution"
   ColumnMemo = "none"
   ParserScope = "per call"
   ScanMemo = "none"
+  OperandScope = "per call"
+  SubqueryColumns = "per table object"
   JobSet = ""
   Family = "all"
 INIT SInit
